@@ -535,26 +535,97 @@ cmd_alignment(const char *tag)
 }
 
 static void
+emit_bytes(const char *s)
+{
+    size_t i, n = s ? strlen(s) : 0;
+    fputc('[', vt_out);
+    for (i = 0; i < n; ++i)
+        fprintf(vt_out, "%s%d", i ? "," : "", (unsigned char)s[i]);
+    fputc(']', vt_out);
+}
+
+/* probability as the JSON prints it: thousandths of exp(log score) */
+static int
+prob_milli(int32 logscore)
+{
+    return (int)floor(logmath_exp(d->lmath, logscore) * 1000.0 + 0.5);
+}
+
+static void
+emit_view_align(alignment_iter_t *it, int level, int maxlevel)
+{
+    int first = 1;
+    fputc('[', vt_out);
+    while (it) {
+        int start, dur, score;
+        score = alignment_iter_seg(it, &start, &dur);
+        fprintf(vt_out, "%s{\"t\":", first ? "" : ",");
+        emit_bytes(alignment_iter_name(it));
+        fprintf(vt_out, ",\"s\":%d,\"d\":%d,\"pm\":%d,\"w\":", start, dur, prob_milli(score));
+        if (level < maxlevel)
+            emit_view_align(alignment_iter_children(it), level + 1, maxlevel);
+        else
+            fprintf(vt_out, "[]");
+        fputc('}', vt_out);
+        first = 0;
+        it = alignment_iter_next(it);
+    }
+    fputc(']', vt_out);
+}
+
+/* decoder_result_json plus, in the same event, what the hypothesis / segmentation / alignment
+ * interfaces say about the same result (the "view" the JSON must agree with) */
+static void
 cmd_json(const char *tag, int start_ms, int level)
 {
     const char *js;
+    char *copy = NULL;
     size_t i, n;
     calloc_last = -1;
     pass = 2;
     in_json = 1;
     js = decoder_result_json(d, start_ms / 1000.0, level);
     in_json = 0;
-    pass = 1;
+    if (js)
+        copy = strdup(js); /* the returned buffer is only valid until the next result call */
     fprintf(vt_out, "{\"e\":\"Json\",\"tag\":\"%s\",\"start_ms\":%d,\"level\":%d,\"null\":%s", tag, start_ms, level,
             js ? "false" : "true");
     if (js) {
-        n = strlen(js);
-        fprintf(vt_out, ",\"alloc\":%ld,\"len\":%ld,\"bytes\":[", calloc_last, (long)n);
+        const char *hyp = decoder_hyp(d, NULL);
+        n = strlen(copy);
+        fprintf(vt_out, ",\"alloc\":%ld,\"len\":%ld,\"frate\":%ld,\"nfr\":%d,\"pm\":%d,\"hyp\":", calloc_last, (long)n,
+                config_int(d->config, "frate"), decoder_n_frames(d), prob_milli(decoder_prob(d)));
+        emit_bytes(hyp ? hyp : "");
+        fprintf(vt_out, ",\"view\":");
+        if (level == 0) {
+            seg_iter_t *seg = decoder_seg_iter(d);
+            int first = 1;
+            fputc('[', vt_out);
+            for (; seg; seg = seg_iter_next(seg)) {
+                int sf, ef;
+                int32 prob = seg_iter_prob(seg, NULL, NULL);
+                seg_iter_frames(seg, &sf, &ef);
+                fprintf(vt_out, "%s{\"t\":", first ? "" : ",");
+                emit_bytes(seg_iter_word(seg));
+                fprintf(vt_out, ",\"s\":%d,\"d\":%d,\"pm\":%d,\"w\":[]}", sf, ef + 1 - sf, prob_milli(prob));
+                first = 0;
+            }
+            fputc(']', vt_out);
+        } else {
+            alignment_t *al = decoder_alignment(d);
+            if (al)
+                emit_view_align(alignment_words(al), 0, level >= 2 ? 2 : 1);
+            else
+                fprintf(vt_out, "[]");
+        }
+        fprintf(vt_out, ",\"bytes\":[");
         for (i = 0; i < n; ++i)
-            fprintf(vt_out, "%s%d", i ? "," : "", (unsigned char)js[i]);
+            fprintf(vt_out, "%s%d", i ? "," : "", (unsigned char)copy[i]);
         fputc(']', vt_out);
     }
     fprintf(vt_out, "}\n");
+    pass = 1;
+    free(copy);
 }
 
 /* ---- audio operations ------------------------------------------------------------------- */
@@ -760,6 +831,20 @@ main(int argc, char *argv[])
             fprintf(vt_out, "],\"n\":%d,\"final\":%d,\"lw_milli\":0}\n", n + 1, n);
             free(copy);
             free(text);
+        } else if (!strcmp(cmd, "addword")) { /* addword <hex word> <hex phones> <update> */
+            static char arg2[1 << 16];
+            char *w, *ph;
+            int r;
+            if (sscanf(line, "%*s %s %65535s %ld", arg, arg2, &a) != 3)
+                return 3;
+            w = vt_unhex(arg, NULL);
+            ph = vt_unhex(arg2, NULL);
+            r = decoder_add_word(d, w, ph, (int)a);
+            fprintf(vt_out, "{\"e\":\"AddWord\",\"ret\":%d,\"word\":", r);
+            emit_bytes(w);
+            fprintf(vt_out, "}\n");
+            free(w);
+            free(ph);
         } else if (!strcmp(cmd, "cmn")) {
             char *s;
             if (sscanf(line, "%*s %s", arg) != 1)
